@@ -7,6 +7,8 @@ from .c05 import deviation_ok
 
 PROP = "C07"
 PLAN = {"quick": (1600, 300), "thorough": (24000, 3000)}
+LARGE = (0.02, 19)  # (share, largest size) of the large class of gen.kv: 17+ control points, degree up to 8
+STEP_BUDGET = 20_000_000  # loop line events per outermost call: ten times the default, for the large class
 RULE = ("case = split: (curve, cut nodes) with cuts at existing knots of every multiplicity, new values, 0, the ends, "
         "repeated cuts, split() without argument, discontinuous curves, rational curves, outside nodes; the pieces are "
         "then joined again with | ; join: independently built adjacent pairs (equal / different degrees, continuous or "
@@ -49,7 +51,7 @@ def gen_case(rng, idx, tier):
         d.update(kind="split", mode=mode, nodes=lib.enc(nodes), argform=rng.choice(["list", "list", "tuple", "array"]))
         return d
     # independent adjacent pair
-    A = gen.curve(rng, nintmax=2, pmax=3, dim=rng.choice([0, 2]))
+    A = gen.curve(rng, nintmax=2, pmax=3, dim=rng.choice([0, 2]), large=False)
     dimA = 0 if not isinstance(A["P"][0], list) else len(A["P"][0])
     rationalB = rng.random() < 0.3
     if A["W"] is not None and rng.random() < 0.5:
@@ -57,7 +59,7 @@ def gen_case(rng, idx, tier):
     b = A["U"][-1]
     adjacent = r < 0.95
     lo = b if adjacent else b + F(1, 4)
-    B = gen.curve(rng, nintmax=2, pmax=3, dim=dimA, rational=rationalB, itv=(lo, lo + rng.choice([1, 2, F(1, 2)])))
+    B = gen.curve(rng, nintmax=2, pmax=3, dim=dimA, rational=rationalB, itv=(lo, lo + rng.choice([1, 2, F(1, 2)])), large=False)
     cont = rng.random() < 0.6
     if cont:
         # make the junction continuous
@@ -125,7 +127,27 @@ def run_split(case, ctx):
             # last piece closes at umax with the left limit
             if b == rc.U[-1]:
                 good &= ctx.check(lib.same_point([float(x) for x in prc(b)], rc(b), False, 1e-9), "split:piece-end", "last piece does not end at curve(umax)")
-    if not good or len(pieces) < 2 or not judged:
+    if exact and good and len(U) % 3 == 0:
+        # the same curve object after an in-place reparametrisation of its knot vector (shift, then scale by 2): split()
+        # must cut at the knots the curve has now, not at anything remembered from the first split
+        if hasattr(ctx, "verify_watched"):
+            ctx.verify_watched()  # the bystander shares this KnotVector object: judged up to here, released now
+        o1 = call(lambda: curve.knotvector.shift(lib.num(F(10), nt)).scale(lib.num(F(2), nt)))
+        if o1.ok:
+            ctx.count("splits_after_inplace_map")
+            rc2 = ref.RC([(k + 10) * 2 for k in rc.U], rc.P, rc.W)
+            o2 = call(curve.split)
+            if ctx.check(o2.ok, f"split:after-inplace-map:raises:{o2.exc_name}", f"split() after knotvector.shift(10).scale(2) raised {o2.brief()}"):
+                ks2 = ref.distinct(rc2.U)
+                ok2 = isinstance(o2.value, tuple) and len(o2.value) == len(ks2) - 1
+                if ok2:
+                    for (a2, b2), pc in zip(zip(ks2, ks2[1:]), o2.value):
+                        prc = cv.state_rc(ctx, pc, "split piece after in-place map")
+                        ok2 = ok2 and prc is not None and prc.limits == (a2, b2) and ref.restrict_equal(prc, rc2) is None
+                ctx.check(ok2, "split:after-inplace-map:pieces", "split() after an in-place shift / scale of the curve's knot vector does not give the Bezier pieces between the current knots")
+    if len(pieces) > 6:
+        ctx.count("joins_skipped_many_pieces")  # large class: the pieces are judged, re-joining 7..30 of them is not affordable
+    if not good or len(pieces) < 2 or not judged or len(pieces) > 6:
         return
     # join the pieces again
     ctx.count("joins_of_split")
